@@ -216,3 +216,12 @@ for _t in GENERATED:
 def generated(quick=False, exclude=()):
     """templates of the generated family; quick: the curated 'genq' subset"""
     return [t for t in GENERATED if ('genq' in t['feats'] or not quick) and not (t['feats'] & set(exclude))]
+
+
+def job_tier(t, tier):
+    """bounds tier of a template job: in a thorough run the bulk of the generated family is
+    explored at the quick bounds (732 templates x codecs); its curated subset and the
+    hand-written templates get the thorough bounds"""
+    if tier == 'thorough' and 'gen' in t['feats'] and 'genq' not in t['feats']:
+        return 'quick'
+    return tier
